@@ -136,7 +136,19 @@ def bfs(mach, depth, rep=None, validate='deepest', deadline=None, max_states=Non
     seen = set()
     frontier = []
     for label in mach.seed_labels():
-        st = mach.seed(label)
+        try:
+            st = mach.seed(label)
+        except Exception as e:  # noqa
+            # the seed is built by valid calls only: an exception from inside the library
+            # while building it is a finding, not a harness bug
+            from .run import library_exception_report
+            if library_exception_report(e, None) is None:
+                raise
+            rep.violation('seed-exception:%s' % type(e).__name__,
+                          'the library raised %s (%s) while the starting state was built by '
+                          'valid calls' % (type(e).__name__, str(e)[:120]),
+                          dict(machine=mach.name, seed=label, trace=[]))
+            continue
         try:
             mach.invariant(st)
         except Violation as v:
@@ -254,7 +266,13 @@ class Machine:
 
     def replay(self, case):
         """Re-run a recorded trace with all checks. Returns violation text or None."""
-        st = self.seed(case['seed'])
+        try:
+            st = self.seed(case['seed'])
+        except Exception as e:  # noqa
+            from .run import library_exception_report
+            if library_exception_report(e, None) is None:
+                raise
+            return 'the library raised %s while the starting state was built' % type(e).__name__
         try:
             self.invariant(st)
             for a in case['trace']:
